@@ -119,11 +119,11 @@ structure FlatB (π α : Type) where
 def FlatB.init (origin : π) (n : Nat) : FlatB π α := ⟨origin, List.replicate n zero⟩
 
 /-- One `PathBuilder` call on `Flattened<B>`: the new state and the calls `B` receives.
-NOTE `begin` sets `current_position` only — `prev_attributes` keeps whatever it held (zeros,
-or the last endpoint of the previous sub-path).  This is the code as it is (finding
-`C16-flattened-begin-prev-attributes`). -/
+`begin` records the position AND the attributes of the first endpoint (lyon commit babe4617;
+before it `prev_attributes` kept its old contents there — finding
+`C16-flattened-begin-prev-attributes`, fixed). -/
 def FlatB.step (F : Flattener π α) (s : FlatB π α) : Call π (List α) → FlatB π α × List (Call π (List α))
-  | .begin p a => (⟨p, s.prev⟩, [.begin p a])
+  | .begin p a => (⟨p, a⟩, [.begin p a])
   | .line p a => (⟨p, a⟩, [.line p a])
   | .quad c p a => (⟨p, a⟩, emitLines (F.quad s.cur c p) s.prev a)
   | .cubic c1 c2 p a => (⟨p, a⟩, emitLines (F.cubic s.cur c1 c2 p) s.prev a)
@@ -145,8 +145,8 @@ def FlatB.after (F : Flattener π α) : FlatB π α → List (Call π (List α))
 
 /-! ### Reference: what the property asks of a flattening builder
 
-Same traversal, but the state is the TRUE current endpoint and its attributes (`begin` records
-them) and every emitted point carries the interpolation at the reported `t`. -/
+Same traversal — the state is the current endpoint and its attributes — but every emitted point
+carries the interpolation at the reported `t` by definition (no `t == 1` shortcut). -/
 
 def specLines (segs : List (FSeg π α)) (fromA toA : List α) : List (Call π (List α)) :=
   segs.map fun s => Call.line s.b (interp fromA toA s.t)
